@@ -481,8 +481,19 @@ func c14() []*Ob {
 								okSrc = false
 							}
 						}
+						testedSorted := false
+						for _, f := range FactsAtInstr(ret) {
+							if cl, ok := f.Cond.(ssa.CallInstruction); ok && f.Val {
+								switch CallName(cl) {
+								case "sort.IsSorted", "sort.SliceIsSorted", "slices.IsSortedFunc", "slices.IsSorted":
+									testedSorted = true
+								}
+							}
+						}
 						if sorted && okSrc {
 							c.Site(ret.Pos(), "min/max MID are read from the sorted copy")
+						} else if testedSorted {
+							c.Site(ret.Pos(), "min/max MID are read from a list that was just tested to be sorted")
 						} else {
 							c.Violation("prov:sortIDs:window", ret.Pos(), "sortIDs takes the request window from the unsorted input (or before sorting): ids outside the first-to-last window are looked up in no fraction")
 						}
